@@ -56,6 +56,10 @@ CHECKS = {
   text="Lean theorems: for any page built from literal segments and escaped data slots whose slots are all reached outside tag position (a check computed on the literals alone), the tag/attribute skeleton and final tokenizer state are the same for ALL data (skeleton_of_shape, by induction on the segment list); every builder that mirrors pygopherd's HTML/WML generators (HTTP rows for every entry shape and icon of the extracted icon table, directory start, error pages, URL redirect page, WML rows for every counter value and access key, WML error/start pages, text-to-WML for every file) is proved safe and composition-closed; html.escape output never contains < > \" '; the URL filter refuses a double quote; Gopher+ attribute content lines are indented and free of line breaks, so none can pass for a block header. Tie: real listing rows, error pages and WML text pages equal the model's emitted segments byte for byte. Oracle: skeleton(real page with payload) == skeleton(real page with inert twin) in every echo position; header lines server-chosen.",
   note="browser parsing is represented by a four-state tokenizer; the configurable page topper is administrator markup; HTML <title> position only partly exercised",
   technique="Lean 4 proof (skeleton invariance over segment templates) + byte-level correspondence + payload/twin oracle"),
+ "C14": dict(
+  text="Lean theorems over ALL interleavings of atomic steps: (a) any number of workers each running test / assign-if-empty / use on a shared lazily initialised cell only ever use the configured value (invariant + induction over the schedule); (b) any number of writers that truncate and then write the same bytes S chunk by chunk at their own offsets, interleaved with readers in any order: every image a reader sees agrees with S except for zero-filled holes and is never longer — S or a damaged copy, never another listing; with an unpickler that rejects damaged copies every reader gets S's listing or a cache miss (answered correctly by C11). Tie of the model's vocabulary to the code: static scan of pygopherd/ for module-level names assigned inside functions — exactly the six lazies, each assigned only under an unset-guard from configuration. Runtime: bursts of 16-96 simultaneous real clients (6 protocols, plaintext and TLS) against the real threading and forking servers from a cold start with caches enabled: each response equals its sequential response, the server keeps accepting, children are reaped.",
+  note="partial: real thread/process schedules, the GIL, accept queues and child reaping are runtime and only sampled; HolesFail (a damaged pickle does not load) is an assumption, validated for truncations by C11",
+  technique="Lean 4 proof over all schedules of the two shared-state mechanisms + static shared-state scan + real concurrent-server runs"),
  "C15": dict(
   text="Lean theorems for every entry: the +INFO block is '+INFO: ' followed by exactly the plain Gopher renderer's line of the same entry; the listing is INFO, ADMIN, VIEWS then one block per extended attribute in the entry's order; +VIEWS is ' <mime>: <size/1024 k>'; for printable sidecar lines the lines a client reads back from a block are exactly the sidecar's right-stripped lines (splitlines of the joined value), each behind one space and free of line breaks (shared with C13); '+' documents are prefixed by the exact length or +-2 (shared with C04). Tie: real '!' responses for files of several MIME classes and sizes and for directories, with every subset of the four sidecars and multi-line/odd contents, vs the model's populate + gplusBlocks byte for byte (Mod-Date masked); '$' listings through the gophermap machinery. Oracle: parsed blocks vs menu line, sidecar files, mimetypes table and size; '$' blocks == each child's '!'.",
   note="time formatting of Mod-Date masked; sidecars compared right-stripped (what the code keeps); stat/mimetypes/regex mapping are oracles fed to the model",
